@@ -159,6 +159,18 @@ Continuity(wb, o, ix) ==
           /\ \E f \in FibersFromTo(ix, nb, c) : \E u \in ix.succ[f] :
                 u = r.uid \/ (ix.el[u].city = c /\ IsLine(ix.el[u]) /\ ix.succ[u] = {r.uid})
 
+\* "fused or amplifier elements per other site ... wired": a site that is not a ROADM site joins its two links through
+\* its OWN elements - in each direction the traffic goes fibre -> one fused / amplifier element of the site -> fibre of
+\* the other link; the two fibres are never spliced to each other directly.  Stated for every such site of degree 2,
+\* whatever else the sheets say about it (an Eqpt row naming a FUSED site does not remove the site's elements from
+\* the line): it is also part of "wired" for the inconsistent workbooks that are converted rather than rejected.
+LineSites(wb) == {c \in Cities(wb) : EffType(wb, c) \in {"ILA", "FUSED"} /\ Degree(wb, c) = 2}
+CrossedThroughOwnElement(wb, o, ix) ==
+  \A c \in LineSites(wb) : \A x \in Neigh(wb, c) : \A y \in Neigh(wb, c) \ {x} :
+     \E e \in At(o, c) : /\ IsLine(e)
+                         /\ \E f \in FibersFromTo(ix, x, c) : ix.pred[e.uid] = {f}
+                         /\ \E g \in FibersFromTo(ix, c, y) : ix.succ[e.uid] = {g}
+
 \* each Eqpt row (A, Z): the east settings are on the element of site A that feeds the fibre towards Z, the west
 \* settings on the element of site A that is fed by the fibre coming from Z
 AmpFacesNeighbour(wb, o, ix) ==
@@ -178,11 +190,12 @@ PerDegreeTargets(wb, o, ix) ==
        /\ t.roadm \in ix.uids /\ ix.el[t.roadm].type = "Roadm" /\ ix.el[t.roadm].city = r.a /\ t.v = r.target
        /\ t.deg \in ix.uids /\ \E f \in FibersFromTo(ix, r.a, r.z) : ix.succ[t.deg] = {f}
 
-ClauseNames == <<"SiteInventory", "FibrePerDirection", "Continuity", "AmpFacesNeighbour", "UndescribedAmpsAreBlank",
-                 "PerDegreeTargets">>
+ClauseNames == <<"SiteInventory", "FibrePerDirection", "Continuity", "CrossedThroughOwnElement", "AmpFacesNeighbour",
+                 "UndescribedAmpsAreBlank", "PerDegreeTargets">>
 Clause(name, wb, o, ix) ==
   CASE name = "SiteInventory" -> SiteInventory(wb, o, ix) [] name = "FibrePerDirection" -> FibrePerDirection(wb, o, ix)
     [] name = "Continuity" -> Continuity(wb, o, ix) [] name = "AmpFacesNeighbour" -> AmpFacesNeighbour(wb, o, ix)
+    [] name = "CrossedThroughOwnElement" -> CrossedThroughOwnElement(wb, o, ix)
     [] name = "UndescribedAmpsAreBlank" -> UndescribedAmpsAreBlank(wb, o, ix)
     [] name = "PerDegreeTargets" -> PerDegreeTargets(wb, o, ix)
 \* the structural clauses presuppose well-formed names and endpoints
@@ -192,6 +205,10 @@ Conforms(wb, o) == Failing(wb, o) = {}
 \* the name- and type-independent part: one fibre per direction of every link, and nothing dangles
 WiringFailing(wb, o) == IF ~UniqueNames(o) THEN {"UniqueNames"} ELSE IF ~EndpointsExist(o) THEN {"EndpointsExist"}
                         ELSE LET ix == Index(o) IN {n \in {"FibrePerDirection", "Continuity"} : ~Clause(n, wb, o, ix)}
+\* the sites' own elements are in the line (judged apart from WiringFailing: elements that are created but left
+\* unconnected make Continuity fail; whether the line elements of a site are IN the line is a different question)
+CrossingFailing(wb, o) == IF ~UniqueNames(o) \/ ~EndpointsExist(o) THEN {}
+                          ELSE IF CrossedThroughOwnElement(wb, o, Index(o)) THEN {} ELSE {"CrossedThroughOwnElement"}
 
 -----------------------------------------------------------------------------
 (* Model(wb): the topology with the documented names *)
